@@ -9,6 +9,11 @@ Pieces
              from $GI_VERIF_REPO (default /repo) on every run, nothing is written there.
   ir.py      parser for the IR subset (below); function bodies are parsed when first called.
   exec.py    the executor on z3.
+  slice.py   function slicer for files that do not compile whole against the shim: named
+             functions / structs / typedefs / macros / variables copied verbatim (with #line)
+             out of the current file into a generated .inc; missing item => SliceError.
+  runner.py  shared check driver (translator validation, partition pool with a wall-clock
+             budget, vacuity twins, native replay) used by C17, C14, C09.
   selftest.py  `python -m vlib.llsym.selftest`: LLSYM against native runs of small programs.
   harness/c/llsym.h, llsym_native.c   the harness interface and its native implementation.
 
@@ -42,8 +47,16 @@ Model
     that (transitively) share variables with it, to a fresh bit-blasting solver
     (simplify, propagate-values, solve-eqs, bit-blast, sat), and answers are cached on that
     slice.  Proven assertions are added to the path condition as lemmas.
+  * A symbolic address that the path condition pins to a single value is used concretely
+    (two solver calls).  With Executor(memory_failures=True) an access outside every object
+    is a counterexample (id 998, kind 'memory') instead of an ExecError; build(asan=True)
+    makes the native twin replay it under AddressSanitizer (run_native status 'memory').
+  * libc: harness/c/llsym_libc.h has C models of strlen strcmp strncmp strchr strrchr strstr
+    memcmp strtol bsearch, used only in the IR build; the native twin calls glibc, so each
+    translator-validation case also compares the models with the real functions.
   * Harness intrinsics (llsym.h): __llsym_nondet_{i32,i64,u8,u16,u32,u64}(name, idx),
-    __llsym_choice(name, idx, n), __llsym_assume, __llsym_assert(cond, id) (sat => counter-
+    __llsym_choice(name, idx, n), __llsym_pick(name, idx, n) (same input, but one path per
+    value and a concrete result: for lengths and shapes that drive loops), __llsym_assume, __llsym_assert(cond, id) (sat => counter-
     example = model of every nondet input of the path + the outputs so far), __llsym_fail(id)
     (g_error / g_assert stubs), __llsym_exit, __llsym_output(name, idx, value).
     Executor(fixed={name: value}) pins inputs; with all inputs pinned the run is concrete.
